@@ -9,7 +9,10 @@ import (
 	"fmt"
 	"iter"
 	"sort"
+	"sync"
 )
+
+var mu sync.Mutex
 
 // state of one exploration run (single-threaded use: block execution in the
 // harness runs on one goroutine; calls from other goroutines use the default order)
@@ -23,6 +26,8 @@ var (
 
 // Begin starts recording; dev maps visit index -> alternative to apply there.
 func Begin(dev map[int]int) {
+	mu.Lock()
+	defer mu.Unlock()
 	active = true
 	visit = 0
 	devAt = dev
@@ -31,6 +36,8 @@ func Begin(dev map[int]int) {
 
 // End stops recording and returns the sizes of the maps visited (with >= 2 entries).
 func End() []int {
+	mu.Lock()
+	defer mu.Unlock()
 	active = false
 	r := append([]int{}, sizes...)
 	return r
@@ -113,6 +120,7 @@ func Map[K comparable, V any](m map[K]V) iter.Seq2[K, V] {
 			keys = sorted
 		}
 		order := perm(n, 0)
+		mu.Lock()
 		if active && n > 1 {
 			if alt, ok := devAt[visit]; ok {
 				order = perm(n, alt)
@@ -120,6 +128,7 @@ func Map[K comparable, V any](m map[K]V) iter.Seq2[K, V] {
 			sizes = append(sizes, n)
 			visit++
 		}
+		mu.Unlock()
 		for _, i := range order {
 			k := keys[i]
 			v, ok := m[k]
